@@ -306,6 +306,33 @@ func (c *layoutCtx) extractEnc(evs []*Event) []*FieldLayout {
 						i++
 						continue
 					}
+					// alternative spellings of the same list body (e.g. a bulk write for long lists, a loop for short ones)
+					if nx.Kind == EvAlt {
+						var elem *FieldLayout
+						okAlt := len(nx.Iter) > 0
+						for _, arm := range nx.Iter {
+							aw := wireOnly(arm.Events)
+							if len(aw) != 1 || aw[0].Kind != EvRep || !affEq(aw[0].Count, mkLen(lx)) || aw[0].Partial {
+								okAlt = false
+								break
+							}
+							el := c.elemLayoutEnc(aw[0], lx)
+							if elem == nil {
+								elem = el
+							} else if elem.Canon() != el.Canon() {
+								elem = &FieldLayout{Kind: "irregular", Note: "alternative encodings of the list render its elements differently: " + elem.Canon() + " / " + el.Canon(), Pos: rootPos(nx)}
+								break
+							}
+						}
+						if okAlt {
+							f.Kind = "list"
+							f.Ev = append(f.Ev, nx)
+							f.Elem = elem
+							out = append(out, f)
+							i++
+							continue
+						}
+					}
 				}
 				f.Kind, f.Note = "irregular", "length prefix of "+name+" not followed by exactly its data"
 				out = append(out, f)
@@ -337,6 +364,27 @@ func (c *layoutCtx) extractEnc(evs []*Event) []*FieldLayout {
 			}
 			out = append(out, f)
 		case EvWriteBytes, EvAlt:
+			if ev.Kind == EvAlt && !altOnlyBytes(ev) {
+				// alternative spellings of the same fields inside a callee: every arm must render the same layout
+				var first []*FieldLayout
+				canon := ""
+				bad := ""
+				for _, arm := range ev.Iter {
+					fs := c.extractEnc(arm.Events)
+					cs := (&Layout{Fields: fs}).Canon()
+					if first == nil {
+						first, canon = fs, cs
+					} else if cs != canon {
+						bad = canon + "   /   " + cs
+					}
+				}
+				if bad != "" {
+					out = append(out, irregular(ev, "alternative paths of one callee render different layouts: "+bad))
+				} else {
+					out = append(out, first...)
+				}
+				continue
+			}
 			j := i
 			for j+1 < len(w) && (w[j+1].Kind == EvWriteBytes || (w[j+1].Kind == EvAlt && altOnlyBytes(w[j+1]))) && ev.Kind == EvWriteBytes && sameTextSubject(c, ev, w[j+1]) {
 				j++
@@ -481,6 +529,7 @@ func (c *layoutCtx) fixedEnc(evs []*Event) *FieldLayout {
 	width := int64(-1)
 	widthSym := ""
 	pad, side := "", ""
+	var cuts []*Val
 	for _, arm := range arms {
 		total := affConst(0)
 		seenData, padBefore, padAfter := false, false, false
@@ -518,8 +567,18 @@ func (c *layoutCtx) fixedEnc(evs []*Event) *FieldLayout {
 			if bw.lo != nil {
 				f.ValueOps = append(f.ValueOps, "cut does not start at byte 0: "+e.Src.Pretty())
 			}
+			if bw.cut != nil {
+				cuts = append(cuts, bw.cut)
+			}
 			seenData = true
 		}
+		// a cut value must fill the whole field: exactly its first N bytes, no padding after a cut
+		for _, c := range cuts {
+			if !affOf(c).Equal(total) {
+				f.ValueOps = append(f.ValueOps, "an over-long value is cut to "+c.Pretty()+" bytes, not to the field's first "+total.String()+" bytes")
+			}
+		}
+		cuts = nil
 		n, ok := total.IsConst()
 		if !ok {
 			// symbolic width: allowed only when analysing a primitive with symbolic parameters
@@ -696,6 +755,22 @@ func valuePath(v *Val, id int, allowTrim bool, loops map[int]*Event) (ops []stri
 	v = stripCT(v)
 	for {
 		switch {
+		case v.Op == "choice":
+			// alternatives computed after the same reads: every one of them must be lossless, and they must agree
+			var firstTrim string
+			for i, alt := range v.Args {
+				o2, t2, p2, b2 := valuePath(alt, id, allowTrim, loops)
+				ops = append(ops, o2...)
+				if i == 0 {
+					firstTrim, pad, padIsByte = t2, p2, b2
+				} else if t2 != firstTrim {
+					ops = append(ops, "the value is stripped differently on different paths")
+				}
+			}
+			if trim == "" {
+				trim = firstTrim
+			}
+			return
 		case v.Op == "wire" && v.ID == id:
 			return
 		case v.Op == "conv" && isStringOrBytes(v.Type) && v.Args[0].Type != nil && isStringOrBytes(stripCT(v.Args[0]).Type):
